@@ -77,7 +77,7 @@ BaseCases == <<
   [id |-> "sl2z", n |-> 2, lo |-> [a |-> S2, b |-> T2], H |-> [a |-> X2, b |-> D2],
    sub |-> [a |-> <<"a", "b">>, b |-> <<"b", "A">>, c |-> <<"B", "B", "a">>],
    rels |-> {<<"a", "a", "a", "a">>, <<"a", "b", "a", "b", "a", "b", "a", "b", "a", "b", "a", "b">>, <<"a", "a", "b", "A", "A", "B">>},
-   L |-> 4, LD |-> 4, LF |-> 5, kinds |-> AllKinds(X2, 3),
+   L |-> 4, LD |-> 3, LF |-> 4, kinds |-> AllKinds(X2, 3),
    vecs |-> {<<1, 0>>, <<1, 2>>, <<-3, 1>>}, hyp |-> FALSE, xw |-> {}, xd |-> {}],
   [id |-> "gl2z", n |-> 2, lo |-> [a |-> D2, b |-> X2], H |-> [a |-> T2, b |-> U2],
    sub |-> [a |-> <<"b", "a">>, b |-> <<"a", "B", "a">>],
@@ -94,7 +94,7 @@ BaseCases == <<
    vecs |-> {}, hyp |-> FALSE, xw |-> {<<"a", "b", "c", "d", "A", "B", "C", "D">>, <<"d", "c", "b", "a", "a", "b">>}, xd |-> {<<"a", "b", "c", "d", "A", "B", "C", "D">>, <<"d", "c", "b", "a", "a", "b">>}],
   [id |-> "sl3z", n |-> 3, lo |-> [a |-> E12x3, b |-> P3], H |-> [a |-> D3, b |-> E31x3],
    sub |-> [a |-> <<"a", "b">>, b |-> <<"B", "a", "a">>],
-   rels |-> {<<"b", "b", "b">>}, L |-> 4, LD |-> 3, LF |-> 4, kinds |-> AllKinds(C3, 4),
+   rels |-> {<<"b", "b", "b">>}, L |-> 4, LD |-> 2, LF |-> 3, kinds |-> AllKinds(C3, 4),
    vecs |-> {<<1, 0, 2>>, <<0, -1, 1>>}, hyp |-> FALSE, xw |-> {}, xd |-> {}],
   [id |-> "gl3z", n |-> 3, lo |-> [a |-> E23x3, b |-> D3, c |-> E31x3], H |-> NoLo, sub |-> NoSub,
    rels |-> {<<"b", "b">>, <<"a", "b", "A", "b">>}, L |-> 3, LD |-> 2, LF |-> 3,
